@@ -132,6 +132,32 @@ def c05(work, tier, seed, replay):
         rep.cov["traces_validated_against_impl"] += len(runs)
         rep.cov["free_running_runs"] = rep.cov.get("free_running_runs", 0) + len(runs)
     rep.cov["drift"] = drift
+    # ---- the production binary (cmd/omniwitness as it ships: sql.Open + SetMaxOpenConns(1) + omniwitness.Main) under concurrent clients:
+    # updates arrive over the bastion connection it dials (concurrent HTTP/2 streams), reads over its read API
+    prod_shapes = [("sqlfile", 40, 4, 8)] if tier == "quick" else [("sqlfile", 300, 5, 10), ("inmem", 150, 5, 10), ("sqlfile", 40, 8, 6)]
+    binp = build_prod_binary()
+    for store, nruns, ng, nops in prod_shapes:
+        runs = [{"id": "prod%dx%d-%d" % (ng, nops, j), "mode": "free", "db0": db0_of("none"), "prog": random_programs(rng, ng, nops), "sched": []} for j in range(nruns)]
+        rp, tp = work.path("prod-%s-%d.jsonl" % (store, ng)), work.path("free-prod-%s-%d.ndjson" % (store, ng))
+        write_runs(rp, OPS_PARAMS, runs)
+        o, dt = run_driver(["prod-conc", "-bin", binp, "-in", rp, "-out", tp, "-store", store, "-seed", str(seed), "-dir", work.sub("db")])
+        rep.notes.append("prod/" + o.strip())
+        rejected += [("production binary/" + store, r, tp) for r in judge_in_chunks(work, rep, tp, ng, "prod-%s-%d" % (store, ng))]
+        rep.cov["traces_validated_against_impl"] += len(runs)
+        rep.cov["production_binary_runs"] = rep.cov.get("production_binary_runs", 0) + len(runs)
+    # ---- why the single connection: the same code on a pool of several SQLite connections (SqlN) keeps every safety property of this family
+    # but not the error clause of C05 (a storage error only when another write to the same log got in between); TLC must find that
+    sq = []
+    for scen in (["Sc_GrowLogs", "Sc_GrowFork"] if tier == "quick" else ["Sc_GrowLogs", "Sc_TofuLogs", "Sc_GrowFork", "Sc_TofuFork", "Sc3_GrowGrowGrow", "Sc3_TofuForkRead"]):
+        db = dict(SCEN2, **SCEN3)[scen]
+        c = ops_consts(scen, db, "SqlN", driver_steps=True)
+        safe = tlc(work, "MC_Ops", cfg_text(spec="Spec", constants=c, invariants=["NoLeak"], properties=[p_ for p_ in OPS_PROPS if p_ != "ErrOnlyOnConflict"], view="ViewNoSched"),
+                   name="sqln-safe-" + scen, workers=4, timeout=900)
+        err = tlc(work, "MC_Ops", cfg_text(spec="Spec", constants=c, properties=["ErrOnlyOnConflict"], view="ViewNoSched"), name="sqln-err-" + scen, workers=4, timeout=900)
+        if not safe.ok or "ErrOnlyOnConflict" not in err.violated:
+            raise Inconclusive("the SqlN design variant does not behave as documented on %s: safety ok=%s violated=%s; error clause violated=%s" % (scen, safe.ok, safe.violated, err.violated))
+        sq.append({"scenario": scen, "states": safe.distinct, "safety_properties_hold": True, "ErrOnlyOnConflict": "refuted by TLC (expected)"})
+    rep.cov["design_variant_SqlN_pool_of_connections"] = sq
     for store, r, tp in rejected:
         evs = [e for e in read_ndjson(tp) if e.get("run") == r["run"]]
         rep.violation("history of run %s on %s is not linearizable w.r.t. the atomic witness (with the storage-error exception); the judge cannot get past event %d"
@@ -154,7 +180,8 @@ def c05(work, tier, seed, replay):
     rep.cov["distinct_nontrivial"] = len(distinct)
     rep.cov["rule"] = ("TLC lists EVERY interleaving, at storage-call granularity, of the scenario menu (conflicting first use, forks from the same old size, growth vs refresh, refused vs accepted, "
                        "different logs, readers) for 2 and 3 processes on both stores, samples 4-process behaviours, and the gate scheduler forces each on the real witness over the real in-memory store "
-                       "and file-backed SQLite with one connection; plus free-running goroutines under -race; each recorded invocation/response history is judged by Trace_Lin; "
+                       "and file-backed SQLite with one connection; plus free-running goroutines under -race; plus the production binary (cmd/omniwitness as it ships, --db_file, reached by concurrent "
+                       "clients over the bastion connection it dials and its read API); each recorded invocation/response history is judged by Trace_Lin; "
                        "distinct = distinct observed sequences of storage calls (gated) + free-running runs")
     rep.cov.setdefault("exhaustive", True)
     rep.assumptions += ["the gate wrapper delegates transparently", "database/sql blocks a second Begin while the single connection is taken", "TLC"]
@@ -315,6 +342,15 @@ def c06(work, tier, seed, replay):
     o, dt = run_driver(["crash", "-in", hp, "-out", tp, "-dir", work.sub("db"), "-random", str(nrand), "-seed", str(seed), "-workers", str(NCPU)], timeout=3000)
     rep.notes.append(o.strip())
     m = re.search(r"CRASH runs=(\d+) boundaries=(\d+)", o)
+    # ---- the production binary (cmd/omniwitness: flags, sql.Open(--db_file), SetMaxOpenConns(1), omniwitness.Main) is SIGKILLed at a random instant
+    # while it serves the same histories over the bastion connection it dialled, restarted on the same file, read through its read API and probed
+    binp = build_prod_binary()
+    tp2 = work.path("prod-crash.ndjson")
+    o2, dt2 = run_driver(["prod-crash", "-bin", binp, "-in", hp, "-out", tp2, "-dir", work.sub("db"), "-seed", str(seed), "-workers", str(NCPU), "-kills", "2" if tier == "quick" else "24"], timeout=3000)
+    rep.notes.append(o2.strip())
+    with open(tp, "a") as f:
+        f.write(open(tp2).read())
+    rep.cov["production_binary_kills"] = len([1 for l in open(tp2) if '"e":"crash"' in l])
     events = read_ndjson(tp)
     c = dict(OPS_BASE)
     c["TraceFile"] = tp
@@ -356,7 +392,9 @@ def c06(work, tier, seed, replay):
     rep.cov["rule"] = ("for each history (first use; first use+growth; first use+refresh; with refused requests; growth from a stored checkpoint) a dry run lists the real driver-operation boundaries "
                        "(before and after each begin, query, exec, commit, rollback); one child process per boundary performs the history on a file-backed SQLite store through a wrapping driver and SIGKILLs "
                        "itself there; plus random-instant kills from the parent; a fresh process reopens the file, reads the state and probes; judged by Trace_Crash (OldOrNew, AcknowledgedInForce, "
-                       "CompleteAndCosigned, RefusesForgedFirstUse, HonestAfterRestart); WitnessOps(Sql1, DriverSteps, Crash) is model-checked for the same histories; distinct = distinct (history, kill point)")
+                       "CompleteAndCosigned, RefusesForgedFirstUse, HonestAfterRestart); WitnessOps(Sql1, DriverSteps, Crash) is model-checked for the same histories; the same histories are also served by the "
+                       "production binary (cmd/omniwitness with --db_file, reached over a stub bastion), which is SIGKILLed at random instants, restarted on the same file and judged by the same monitors; "
+                       "distinct = distinct (history, kill point)")
     rep.cov["exhaustive"] = True
     for run in list(by_run)[:2]:
         rep.sample(by_run[run])
